@@ -37,9 +37,30 @@ func buildCase(id string, rec *R, refs []*R, nodeRefs []int) *Case {
 		refRecs = append(refRecs, r)
 	}
 	c.Cmd = L(Sym("case"), rec.ToSX(), L(refSX...))
+	skipFmt = hasNonStringTags(rec)
 	c.Real = obsCase(e, refErrs)
+	skipFmt = false
 	c.Err, c.Refs, c.RefRecs = e, refErrs, refRecs
 	return c
+}
+
+func hasNonStringTags(r *R) bool {
+	if r == nil {
+		return false
+	}
+	if r.Op == "tags" {
+		for _, k := range r.NIn {
+			if k != 0 {
+				return true
+			}
+		}
+	}
+	for _, k := range r.K {
+		if hasNonStringTags(k) {
+			return true
+		}
+	}
+	return false
 }
 
 func sentinelRefs(g *Gen) []*R {
@@ -247,6 +268,19 @@ func runProperty(res *Result, prop, tier string, seed uint64, driver, replay str
 		cases = append(cases, annotCases(g, n)...)
 	case "RC":
 		cases = append(cases, contractCases(g, n*4)...)
+	case "FMT":
+		// formatting-engine tie: every generator family, then the same families over the
+		// hostile alphabet (markers, newlines, NUL, invalid UTF-8, empty strings)
+		cases = append(cases, pairCases(g)...)
+		cases = append(cases, genCases(g, n/2)...)
+		cases = append(cases, annotCases(g, n/4)...)
+		cases = append(cases, multiCases(g, n/4)...)
+		g.hostile = true
+		for _, c := range append(append(genCases(g, n/2), annotCases(g, n/4)...), multiCases(g, n/4)...) {
+			c.ID = "h" + c.ID
+			cases = append(cases, c)
+		}
+		g.hostile = false
 	case "C07":
 		cases = append(cases, hiddenCases(g, n)...)
 	case "C04":
